@@ -35,6 +35,16 @@ FRAGS = ["a", "b c", "*e*", "**s**", "`c`", "`` x`y ``", "[l](/u)", "[l](/u \"t\
          "<b>", "<http://x.y>", "_u_", "~~d~~", "é", "x1", "[r]", "![a\nb](s)", "\"q\"", "--"]
 
 
+PIPE_FRAGS = ["|", "a|b", "`c|d`", "\\|", "x\\\\|", "[l|m](/u)", "*e|*", "trail |", "|lead", "||", "`|`", "![i|j](s)", "\\\\"]
+
+
+def cell_docs(c: str) -> dict:
+    """a cell text in every position / spelling of a table row: (document, index of the cell's inline token)"""
+    return {"only": ("|" + c + "|\n|-|\n", 0), "last-open": ("x|" + c + "\n-|-\n", 1), "first-open": (c + "|x\n-|-\n", 0),
+            "body-last-open": ("|h|k|\n|-|-|\n|y|" + c + "\n", 3), "body-first-open": ("|h|k|\n|-|-|\n" + c + "|y\n", 2),
+            "padded": ("| " + c + " |\n|-|\n", 0)}
+
+
 def inline_text(rng):
     n = rng.randint(1, 5)
     t = " ".join(rng.choice(FRAGS) for _ in range(n))
@@ -101,6 +111,24 @@ def run(ctx: Ctx) -> None:
             ctx.count((t, cname), nontrivial=True)
             if k is None or proj(k.children) != proj(base.children):
                 ctx.fail("context-dependent", f"the inline text parses differently in context {cname} than in a paragraph", {"input": doc, "t": t, "context": cname})
+    # ---- (2a) table cells in every row position, rows with and without the optional enclosing pipes, texts holding pipes (written `\\|`
+    # in the cell, as GFM prescribes; `C09.escSplit_escapeAll` / `escSplit_row` are the theorems behind it): the cell's children are the
+    # paragraph's children (seeded change C18l: enclosing pipes stripped by a regex that ignores escaping)
+    ncell = 0
+    for _ in range(500 if quick else 12000):
+        t = " ".join(rng.choice(FRAGS + PIPE_FRAGS + PIPE_FRAGS) for _ in range(rng.randint(1, 4)))
+        if "\n" in t or t.endswith("\\") or t != t.strip():
+            continue
+        base = kids(mdc.parse(t + "\n"))
+        if base is None or base.content != t:
+            continue
+        for cname, (doc, idx) in cell_docs(t.replace("|", "\\|")).items():
+            inl = [x for x in mdc.parse(doc) if x.type == "inline"]
+            ncell += 1
+            ctx.count((t, "cell-" + cname), nontrivial="|" in t)
+            if len(inl) <= idx or proj(inl[idx].children) != proj(base.children):
+                ctx.fail("context-dependent", f"the inline text parses differently in a table cell ({cname}) than in a paragraph", {"input": doc, "t": t, "context": "cell-" + cname, "index": idx})
+    ctx.cov["cell_positions"] = {"comparisons": ncell, "row_spellings": 6}
     # ---- (2b) the nesting budget is the inline parser's own: texts whose bracket / emphasis depth is around maxNesting mean the
     #      same in every block context and under parseInline (a block level leaking into the inline level shifts the cut-off)
     for mn in (6, 8, 20):
@@ -262,8 +290,37 @@ def run(ctx: Ctx) -> None:
 
 
 def search(ctx: Ctx):
+    """a broken tie or proof: look for an input on the implementation — the same inline text in a paragraph and in every cell position"""
+    import random
+
+    from markdown_it import MarkdownIt
+
+    rng = random.Random(ctx.seed + 77)
+    md = MarkdownIt("commonmark").enable("table")
+    for _ in range(4000):
+        t = " ".join(rng.choice(FRAGS + PIPE_FRAGS + PIPE_FRAGS) for _ in range(rng.randint(1, 4)))
+        if "\n" in t or t.endswith("\\") or t != t.strip():
+            continue
+        try:
+            base = kids(md.parse(t + "\n"))
+            if base is None or base.content != t:
+                continue
+            for cname, (doc, idx) in cell_docs(t.replace("|", "\\|")).items():
+                inl = [x for x in md.parse(doc) if x.type == "inline"]
+                if len(inl) <= idx or proj(inl[idx].children) != proj(base.children):
+                    return Finding("context-dependent", f"the inline text parses differently in a table cell ({cname}) than in a paragraph",
+                                   {"input": doc, "t": t, "context": "cell-" + cname, "index": idx})
+        except Exception:
+            continue
     return None
 
 
 def replay(ctx: Ctx, obj: dict) -> bool:
+    from markdown_it import MarkdownIt
+
+    if obj.get("kind") == "context-dependent" and "index" in obj and "t" in obj:
+        md = MarkdownIt("commonmark").enable("table")
+        base = kids(md.parse(obj["t"] + "\n"))
+        inl = [x for x in md.parse(obj["input"]) if x.type == "inline"]
+        return base is not None and len(inl) > obj["index"] and proj(inl[obj["index"]].children) == proj(base.children)
     return True
